@@ -812,7 +812,8 @@ def shard_tread_then_edit(acc, shard, nshards, params):
                    len(specs), len(cfgs), len(_READERS[2]), len(MUTATIONS)))
 
 
-HLS = [None, {"PE": [(1,)]}, {"PE": [(0,)], "Q": [(1, 1)]}, {"PE": [(1, 0)]}]
+HLS = [None, {"PE": [(1,)]}, {"PE": [(0,)], "Q": [(1, 1)]}, {"PE": [(1, 0)]},
+       {0: [(1,)], (1, 0): [(0,)]}]     # workers named by an int and by a tuple (space stamps)
 
 
 def case_render(case):
